@@ -52,7 +52,7 @@ def run(ctx):
 
     # ---- leg B
     rng = random.Random(ctx.seed)
-    n = 1500 if T else 260
+    n = 1500 if T else 170
     rb = pl.gen_behaviours(ctx, "reuse", "ReuseConn_gen_c08.cfg", n, 150)
     pb = pl.gen_behaviours(ctx, "pipeline", "LazyPipeline_gen_c08.cfg", n, 120)
     rb = [b for b in rb if pl.interesting(b)]
